@@ -77,6 +77,16 @@ class C02(Check):
         add("klrki", [G.key(rng) for _ in range(4)], "multisig")
         for n in (0, 1, 2, 127, 128):
             add("multisigout", G.lst([[G.key(rng)] for _ in range(n)]), "multisig")
+        # encoders pass the writer's error on and leave nothing behind: encode into writers of every size around the exact length,
+        # each failed call followed by a round trip of an unrelated value on the same thread
+        for v in (0, 127, 128, 300, 2 ** 14, 2 ** 63, 2 ** 64 - 1):
+            for n in (0, 1, 2, 9, 10, 11):
+                cs.append(Case("encshort %s varint %d %d" % (sz, n, v), "short-writer"))
+                add("varint", [str(rng.choice([1, 127, 128, 2 ** 32, 2 ** 64 - 1]))], "after-short-writer")
+        for _ in range(40):
+            t = G.tx_desc(rng, **G.random_shape(rng, small=True))
+            cs.append(Case("encshort %s tx %d %s" % (sz, rng.choice([0, 1, 5, 40, 100, 10 ** 6]), " ".join(t)), "short-writer"))
+            add("tx", G.tx_desc(rng, **G.random_shape(rng, small=True)), "after-short-writer")
         add("rangesig", G.rangesig(rng), "rangesig")
         add("key64", [G.hexb(rng, 2048)], "key64")
         for t in range(7):
@@ -102,6 +112,8 @@ class C02(Check):
 
     def oracle(self, case, impl, ctx):
         w = impl.split(" ")
+        if case.line.startswith("encshort "):
+            return None if w[0] in ("OK", "ERR") else "encoding into a short writer did not return: " + impl[:60]
         if case.line.startswith("dec "):
             # String::from_utf8 must accept exactly well-formed UTF-8 (python's strict decoder is the independent reference)
             raw = bytes.fromhex(case.line.split(" ")[3])[1:]
